@@ -20,6 +20,8 @@
 # per-DLCI tables, C06.R12 the receive path evaluated octet by octet on witness
 # streams (empty / one-octet / escaped / longest payload, noise between frames)
 # calls the registered handlers with exactly the messages sent.
+# C06.R13 sercomm_sendmsg + sercomm_drv_pull evaluated on witness messages (255 / 256 / 257 octets, the longest
+# payload) and looped into the evaluated receiver: every message arrives once, intact.
 # See DESIGN.md section 7, C06.
 
 import os
@@ -91,7 +93,9 @@ EXPLANATION = (
     "values of the DLCI enumeration and the constant DLCIs at the register / sendmsg call sites of sercomm.c are compared "
     "with the array extents clang resolved for dlci_handler[] / dlci_queues[].  The receive path as a whole (sercomm_init, "
     "sercomm_register_rx_cb, sercomm_drv_rx_char per octet, dispatch_rx_msg, msgb helpers) is additionally evaluated on witness "
-    "streams built from the transmitter's constants, and the recorded handler calls must be the messages sent.  A statement about all paths of "
+    "streams built from the transmitter's constants, and the recorded handler calls must be the messages sent.  The transmit path "
+    "(sercomm_sendmsg, sercomm_drv_pull per octet, with the C integer conversions of every followed helper) is evaluated on witness "
+    "messages up to the longest promised payload and looped into that receiver (C06.R13).  A statement about all paths of "
     "one step holds for every octet stream and every queueing history.")
 ALLOC_ASSUMPTION = (
     "sercomm_alloc_msgb() returns a buffer (non-NULL) in the receive step: the property quantifies over histories in which "
@@ -1349,8 +1353,30 @@ class Tx:
                 self.rows[(s, v, end)] = sigs.pop()
         self.idle = [p for p in self.step.table([0], assume={TXM: False})[(0, 0x41)]]
 
-    @staticmethod
-    def at_end(p):
+    def octets_left(self, t, p):
+        """True if the text t of a branch atom is the number of octets of the message still to be sent,
+        `tx.msg->tail - tx.next_char`: written in place, or as the value a followed helper without side effects
+        returned on this path (Step.resolve), provided the helper's return type holds every count the property
+        quantifies over (< 2^15; a narrower type is what C06.R13 evaluates)."""
+        diff = "%s->tail - %s" % (TXM, TXP)
+        if t in (diff, "(%s)" % diff):
+            return True
+        step = self.step
+        for fd in [step.f] + [step.helpers()[h] for h in step.reachable_helpers()]:
+            for n in walk(self.tu.body(fd)):
+                if kind(n) == "CallExpr" and ctext(n) == t and p.env.get(("rets", id(n))) in (diff, "(%s)" % diff):
+                    h = step.helper_of(n)
+                    if h is None or not step.pure(h):
+                        continue
+                    bits = int_type_bits(n, self.tu.kind)
+                    if bits is None or bits[0] < 16:
+                        raise AnalysisError("%s(): end-of-message test on `%s`, a count of octets converted to `%s` -- the "
+                                            "transmit table does not model the conversion (C06.R13 evaluates it)"
+                                            % (TX_FN, t, n.get("type", {}).get("qualType")))
+                    return True
+        return False
+
+    def at_end(self, p):
         end = None
         for e in p.events:
             if e[0] != "fork":
@@ -1362,6 +1388,10 @@ class Tx:
                     end = pol
                 elif t in ("%s->tail < %s" % (TXM, TXP),):
                     raise AnalysisError("%s(): end-of-message test `%s` unclassifiable" % (TX_FN, t))
+                elif self.octets_left(t, p):
+                    end = not pol           # next_char never passes tail: the count is zero exactly at the end
+                elif t.startswith(("0 == ", "0 < ")) and self.octets_left(t.split(" ", 2)[2], p):
+                    end = pol if t.startswith("0 == ") else not pol
                 else:
                     raise AnalysisError("%s(): condition `%s` on the in-progress path is outside the rule's vocabulary"
                                         % (TX_FN, t))
@@ -2343,34 +2373,6 @@ def r4_dispatch(L, tu, tag):
               [(pn[0], pn)], desc, line=line)
 
 
-def r4_sendmsg(L, tu):
-    R = "C06.R4"
-    fn = tu.func("sercomm_sendmsg")
-    L.fn(F, "sercomm_sendmsg")
-    pn = [p.get("name") for p in tu.fparams(fn)]
-    if len(pn) != 2:
-        raise AnalysisError("sercomm_sendmsg(): signature changed")
-    stp = Step(tu, "sercomm_sendmsg", pn[0], "<no state>", subject_id=tu.fparams(fn)[0].get("id"))
-    hdrs, enq = set(), set()
-    for p in stp.paths(0, 0x41):
-        push, stores, q = None, {}, []
-        for e in p.events:
-            if e[0] == "call" and e[1] == "msgb_push":
-                push = (e[2][0], e[3][1][1] if e[3][1][0] == "const" else None)
-            elif e[0] == "store" and e[5] is not None and e[5][1][:2] == ("call", "msgb_push"):
-                t = e[2]
-                stores[e[5][2]] = "dlci" if t == ("octet", 0, 0) else ("const" if t[0] == "const" else str(t[1]))
-            elif e[0] == "call" and e[1] == "msgb_enqueue":
-                q.append((e[2], bool(stores)))
-        hdrs.add((push, tuple(sorted(stores.items(), key=str))))
-        enq.add(tuple(q))
-    L.require("C06.R3", F, "sercomm_sendmsg", "two octets are prepended to the payload: [address = DLCI argument, control "
-              "constant], i.e. they are the first octets after the opening flag",
-              [((pn[1], 2), ((0, "dlci"), (1, "const")))], sorted(hdrs, key=str))
-    L.require(R, F, "sercomm_sendmsg", "the message is enqueued once, after the header was written, on the queue indexed "
-              "by the DLCI argument", [((("&%s[%s]" % (QUEUES, pn[0]), pn[1]), True),)], sorted(enq, key=str))
-
-
 def r4_queue_scan(L, tu, tx):
     """Lower DLCI first: decided on the walked paths of the idle part of
     sercomm_drv_pull, not on where the tests are written.  The k-th
@@ -2942,6 +2944,10 @@ def _vtext(v):
     return "?" if v is None else str(v)
 
 
+def _what(w):
+    return ctext(w) if isinstance(w, dict) else w       # the text of a store, computed only for a message
+
+
 class MsgbEval:
     """Evaluation of the msgb helpers on ONE concrete receive buffer: integers are Python integers (wrapped to
     the C type at integral casts and stores), an address is ('@', base, offset) with base 'obj' (the struct msgb
@@ -3070,7 +3076,7 @@ class MsgbEval:
         elif loc[0] == "glob":
             pass
         else:
-            raise AnalysisError("msgb evaluation: store through an address the evaluation cannot resolve: `%s`" % what)
+            raise AnalysisError("msgb evaluation: store through an address the evaluation cannot resolve: `%s`" % _what(what))
 
     # -- expressions
     def ev(self, tu, e, env, depth):
@@ -3126,7 +3132,7 @@ class MsgbEval:
                 loc = self.lv(tu, ks[0], env, depth)
                 old = self.load(loc, env)
                 new = _vadd(old, 1 if op == "++" else -1)
-                self.store(loc, new, e.get("type", {}).get("qualType", ""), env, ctext(e))
+                self.store(loc, new, e.get("type", {}).get("qualType", ""), env, e)
                 return old if e.get("isPostfix") else self.load(loc, env)
             if op == "&":
                 loc = self.lv(tu, ks[0], env, depth)
@@ -3149,7 +3155,7 @@ class MsgbEval:
             if op == "=":
                 v = self.ev(tu, ks[1], env, depth)
                 loc = self.lv(tu, ks[0], env, depth)
-                self.store(loc, v, e.get("type", {}).get("qualType", ""), env, ctext(e))
+                self.store(loc, v, e.get("type", {}).get("qualType", ""), env, e)
                 return self.load(loc, env) if loc[0] in ("var", "field") else v
             if op in ("&&", "||"):
                 a = _vtruth(self.ev(tu, ks[0], env, depth))
@@ -3169,7 +3175,7 @@ class MsgbEval:
             rhs = self.ev(tu, ks[1], env, depth)
             loc = self.lv(tu, ks[0], env, depth)
             new = self.binop(op, self.load(loc, env), rhs)
-            self.store(loc, new, e.get("type", {}).get("qualType", ""), env, ctext(e))
+            self.store(loc, new, e.get("type", {}).get("qualType", ""), env, e)
             return self.load(loc, env) if loc[0] in ("var", "field") else new
         if k == "ConditionalOperator":
             c = _vtruth(self.ev(tu, ks[0], env, depth))
@@ -3783,6 +3789,7 @@ class RxFold(MsgbEval):
         self.glob, self.mem, self.envs = {}, {}, {}
         self.delivered = []
         self.released = 0
+        self.switches = {}         # id(SwitchStmt) -> [(labels, statement)]
 
     # -- the state object
     def groot(self, e, env):
@@ -3847,7 +3854,7 @@ class RxFold(MsgbEval):
         if loc[0] == "mem":
             self.mem[loc[1][2]] = self.wrap(v, qt)
         if loc[0] == "field" and self.obj is None:
-            raise AnalysisError("receive fold: a released buffer is written: `%s`" % what)
+            raise AnalysisError("receive fold: a released buffer is written: `%s`" % _what(what))
         MsgbEval.store(self, loc, v, qt, env, what)
 
     def release(self):
@@ -3933,13 +3940,10 @@ class RxFold(MsgbEval):
                 b = 1
         return MsgbEval.binop(op, a, b)
 
-    def run_switch(self, tu, st, env, depth):
-        raw = [x for x in st.get("inner", []) if x]
-        v = self.ev(tu, raw[-2], env, depth) if len(raw) >= 2 else None
-        if not isinstance(v, int) or kind(raw[-1]) != "CompoundStmt":
-            raise AnalysisError("receive fold: switch on `%s` does not evaluate" % (ctext(raw[-2]) if len(raw) >= 2 else "?"))
+    @staticmethod
+    def switch_arms(tu, body):
         seq = []
-        for x in kids(raw[-1]):
+        for x in kids(body):
             labels = []
             while kind(x) in ("CaseStmt", "DefaultStmt"):
                 ks = kids(x)
@@ -3957,6 +3961,16 @@ class RxFold(MsgbEval):
             return any(kind(c) in ("CaseStmt", "DefaultStmt") or (kind(c) != "SwitchStmt" and nested(c)) for c in kids(n))
         if any(nested(x) for _, x in seq):
             raise AnalysisError("receive fold: case label inside a nested statement")
+        return seq
+
+    def run_switch(self, tu, st, env, depth):
+        raw = [x for x in st.get("inner", []) if x]
+        v = self.ev(tu, raw[-2], env, depth) if len(raw) >= 2 else None
+        if not isinstance(v, int) or kind(raw[-1]) != "CompoundStmt":
+            raise AnalysisError("receive fold: switch on `%s` does not evaluate" % (ctext(raw[-2]) if len(raw) >= 2 else "?"))
+        seq = self.switches.get(id(st))
+        if seq is None:
+            seq = self.switches[id(st)] = self.switch_arms(tu, raw[-1])
         start = next((i for i, (ls, _) in enumerate(seq) if v in ls), None)
         if start is None:
             start = next((i for i, (ls, _) in enumerate(seq) if "default" in ls), None)
@@ -4059,6 +4073,290 @@ def r12_rx_fold(L, tu, mtu, tag, size, K):
              "; ".join(show(*w) for w in want), "; ".join(show(*g) for g in ev.delivered) or "no handler call",
              ev.delivered == want, tu.line(tu.func(RX_FN)))
     L.floor(R, "witness streams folded through %s (%s build)" % (RX_FN, tag), len(witnesses), 5)
+
+
+# ------------------------------------------- C06.R13 fold of the transmitter over witness messages
+
+ENQ_FN, DEQ_FN = "msgb_enqueue", "msgb_dequeue"
+
+
+class TxFold(RxFold):
+    """RxFold extended to what sercomm_sendmsg() / sercomm_drv_pull() need.  The octet cell the pull writes to is
+    the address ('@', 'out', 0).  msgb_enqueue(q, m) / msgb_dequeue(q) on a queue head inside the state object
+    are the FIFO primitives whose list discipline C06.R4 decides on their bodies; the head's next / prev members
+    are kept as C would see them (the head itself when empty, else the address ('@', 'entry', 0) of the queued
+    message's list member, through which nothing can be done), so llist_empty() on a head evaluates.  Statement
+    expressions are executed; an asm statement (interrupt masking) changes no C object the fold tracks, local
+    variables it names become unknown."""
+
+    def __init__(self, tus, zero):
+        RxFold.__init__(self, tus, zero)
+        self.queues = {}
+        self.out = None
+        self.stack, self.narrowed = [], []      # functions being evaluated; integer conversions that changed a value
+        self.enq_snap = []         # the message as it was each time msgb_enqueue() was reached
+        self.cut = None            # offset of the first payload octet in the data area (set by the rule)
+
+    def lv(self, tu, e, env, depth):
+        s = strip(e)
+        k = kind(s)
+        if (k == "UnaryOperator" and s.get("opcode") == "*") or k == "ArraySubscriptExpr":
+            if k == "UnaryOperator":
+                pv = self.ev(tu, kids(s)[0], env, depth)
+            elif self.groot(s, env):
+                return RxFold.lv(self, tu, e, env, depth)
+            else:
+                a, b = kids(s)
+                pv = _vadd(self.ev(tu, a, env, depth), self.ev(tu, b, env, depth))
+            if _sym(pv) and pv[1] == "buf":
+                return ("mem", pv)
+            return ("out",) if pv == ("@", "out", 0) else ("unk",)
+        return RxFold.lv(self, tu, e, env, depth)
+
+    def load(self, loc, env):
+        return self.out if loc[0] == "out" else RxFold.load(self, loc, env)
+
+    def store(self, loc, v, qt, env, what):
+        if loc[0] == "out":
+            self.out = self.wrap(v, qt)
+            return
+        RxFold.store(self, loc, v, qt, env, what)
+
+    def message(self, was):
+        """(octets prepended before offset `was` of the data area, octets from there to the tail) of the live
+        message, None where data / tail do not evaluate; was=None: (), every octet."""
+        d, t = self.obj.get("data", 0), self.obj.get("tail", 0)
+        if not (_sym(d) and _sym(t) and d[1] == t[1] == "buf" and d[2] <= t[2]):
+            return None
+        cut = d[2] if was is None else was
+        if not d[2] <= cut <= t[2]:
+            return None
+        octs = [self.mem.get(i) for i in range(d[2], t[2])]
+        return (tuple(octs[:cut - d[2]]), tuple(octs[cut - d[2]:]))
+
+    def relink(self, path):
+        q = self.queues.get(path) or []
+        self.glob[path + ".next"] = self.glob[path + ".prev"] = ("@", "entry", 0) if q else ("@", "g:" + path, 0)
+
+    def queue_of(self, name, args, n):
+        q = args[0] if len(args) == n else None
+        if not (_sym(q) and q[1].startswith("g:") and q[2] == 0):
+            raise AnalysisError("transmit fold: %s() on `%s`, which is not a queue head of the state object" % (name, _vtext(q)))
+        return q[1][2:]
+
+    def call(self, name, args, depth=0):
+        if name == ENQ_FN:
+            path = self.queue_of(name, args, 2)
+            if args[1] != ("@", "obj", 0) or self.obj is None or self.queues.get(path):
+                raise AnalysisError("transmit fold: %s() of `%s` -- not the one live witness message on an empty queue"
+                                    % (name, _vtext(args[1])))
+            self.queues[path] = [args[1]]
+            self.relink(path)
+            self.enq_snap.append(self.message(self.cut))
+            return None
+        if name == DEQ_FN:
+            path = self.queue_of(name, args, 1)
+            q = self.queues.get(path) or []
+            m = q.pop(0) if q else 0
+            self.relink(path)
+            return m
+        self.stack.append(name)
+        try:
+            return RxFold.call(self, name, args, depth)
+        finally:
+            self.stack.pop()
+
+    @staticmethod
+    def binop(op, a, b):
+        if op in ("==", "!=") and _sym(a) and _sym(b) and a[1] != b[1]:
+            ka, kb = a[1].startswith("g:"), b[1].startswith("g:")
+            if ka != kb and (a[1] if kb else b[1]) in ("entry", "obj", "buf"):
+                return int(op == "!=")      # a message is not a part of the state object
+        return RxFold.binop(op, a, b)
+
+    def ev(self, tu, e, env, depth):
+        k = kind(e) if e else None
+        if k == "StmtExpr":
+            body = [x for x in kids(kids(e)[0])] if kids(e) and kind(kids(e)[0]) == "CompoundStmt" else None
+            if body is None:
+                raise AnalysisError("transmit fold: statement expression with an unexpected shape")
+            for x in body[:-1]:
+                if self.run(tu, x, env, depth) is not None:
+                    raise AnalysisError("transmit fold: jump out of a statement expression")
+            if body and "Stmt" not in (kind(body[-1]) or "Stmt"):
+                return self.ev(tu, body[-1], env, depth)
+            if body and self.run(tu, body[-1], env, depth) is not None:
+                raise AnalysisError("transmit fold: jump out of a statement expression")
+            return None
+        if k in ("ImplicitCastExpr", "CStyleCastExpr") and e.get("castKind") == "IntegralCast":
+            t = e.get("type", {})       # a typedef of a narrow type truncates like the type itself
+            v = self.ev(tu, kids(e)[0], env, depth)
+            qt = (t.get("desugaredQualType") or t.get("qualType", "")).replace("const ", "").strip()
+            w = self.wrap(v, "unsigned char" if qt == "char" and tu.kind == "fw" else qt)      # plain char is unsigned on ARM
+            if isinstance(v, int) and w != v:
+                note = "%s(): `%s` = %d converted to %s reads %d" % (self.stack[-1] if self.stack else "?", ctext(kids(e)[0]), v,
+                                                                    t.get("qualType", "?"), w)
+                if note not in self.narrowed:
+                    self.narrowed.append(note)
+            return w
+        return RxFold.ev(self, tu, e, env, depth)
+
+    def run(self, tu, st, env, depth):
+        if st and kind(st) == "GCCAsmStmt":
+            for n in walk(st):
+                rd = n.get("referencedDecl", {}) if kind(n) == "DeclRefExpr" else {}
+                if rd.get("id") in env:
+                    env[rd.get("id")] = None
+            return None
+        return RxFold.run(self, tu, st, env, depth)
+
+
+def fold_start(cls, tu, mtu, anchors):
+    """Evaluator in the state sercomm_init() leaves behind (run on the zero-initialised objects of sercomm.c)."""
+    zero = set(n for n, d in tu.vars.items() if not d.get("init") and d.get("storageClass") != "extern"
+               and os.path.basename(d.get("_file") or "sercomm.c") == "sercomm.c")
+    ev = cls((tu, mtu), zero)
+    for a in anchors:
+        if ev.find(a) is None:
+            raise AnalysisError("anchor function %s() vanished" % a)
+    if ev.find(INIT_FN) is not None:
+        try:
+            ev.call(INIT_FN, [])
+        except _Abort as e:
+            raise AnalysisError("fold: %s() ends in %s()" % (INIT_FN, e))
+    return ev
+
+
+def r13_tx_fold(L, tu, mtu, tag, size):
+    """C06.R13 - the transmitter, run.  Decides the clause `any sequence of messages queued for transmission and
+    fed octet by octet into a receiver is delivered ... with identical DLCI and payload, exactly once each` for
+    the transmit side: for every witness message a buffer is obtained from sercomm_alloc_msgb(n), filled through
+    msgb_put(), handed to sercomm_sendmsg(dlci, msg), and sercomm_drv_pull() is EVALUATED (TxFold: the state
+    object, every helper called with its parameter and return TYPES - an integer conversion truncates as in C -,
+    the msgb header push on the concrete buffer, the release of the message) until it reports idle; the octets
+    it produced are fed, one by one, to the evaluated receive step of C06.R12.  Witnesses: empty and one-octet
+    payloads, flag / escape / zero octets, messages of 255, 256 and 257 octets including address and control
+    octet (every count of octets still to be sent from there down to 0 occurs - the values at which a count kept
+    in 8 bits wraps), and the longest payload the property promises (receive size - 1; in the host build every
+    count up to 2049).  Required: the handler calls are exactly the messages queued.  Each witness is an input
+    of the property's quantifier, so a mismatch is a counterexample; a step the evaluation cannot follow is no
+    verdict."""
+    R = "C06.R13"
+    for fn in (SEND, PULL):
+        L.fn(F, fn)
+    probe = fold_start(RxFold, tu, mtu, (RX_FN, REG))
+    free = [d for d in range(256) if probe.call(REG, [d, ("@", "handler", d)]) == 0]
+    if len(free) < 3:
+        raise AnalysisError("transmit fold: %s() accepts fewer than 3 DLCIs" % REG)
+    d0, d1, d2 = free[0], free[len(free) // 2], free[-1]
+
+    def ramp(n):
+        return [(7 * i + 1) & 0xFF for i in range(n)]
+    longest = sorted({253, 254, 255, size - 1})
+    witnesses = [
+        ("empty payload, one octet, then flag / escape / zero octets",
+         [(d1, []), (d2, [0x41]), (d0, [0x7E, 0x7D, 0x00, 0x41, 0x5E, 0x5D, 0x20, 0x7D, 0x7E])]),
+    ] + [("message of %d octets (address + control + %d payload octets) followed by a short message" % (n + 2, n),
+          [(d1, ramp(n)), (d0, [0x55])]) for n in longest if n < size]
+
+    def show(h, d, p):
+        body = " ".join("??" if o is None else o if isinstance(o, str) else "%02X" % o for o in p[:8])
+        return "handler[%s](dlci %s, %s)" % (h, _vtext(d), "[%s%s]" % (body, " .. %d octets" % len(p) if len(p) > 8 else ""))
+
+    for title, msgs in witnesses:
+        tx = fold_start(TxFold, tu, mtu, (SEND, PULL, RX_ALLOC_FN, "msgb_put"))
+        rx = fold_start(RxFold, tu, mtu, (RX_FN, REG))
+        for d in sorted({d for d, _ in msgs}):
+            if rx.call(REG, [d, ("@", "handler", d)]) != 0:
+                raise AnalysisError("transmit fold: %s(%d, .) refused" % (REG, d))
+        pulled = 0
+        try:
+            for d, p in msgs:
+                tx.envs = {}
+                m = tx.call(RX_ALLOC_FN, [len(p)])
+                if m != ("@", "obj", 0) or tx.obj is None:
+                    raise AnalysisError("transmit fold: %s(%d) does not arrive at a buffer from %s()" % (RX_ALLOC_FN, len(p), ALLOC_FN))
+                at = tx.call("msgb_put", [m, len(p)])
+                if not (_sym(at) and at[1] == "buf"):
+                    raise AnalysisError("transmit fold: msgb_put() of the payload does not return an address of the data area")
+                for i, o in enumerate(p):
+                    tx.mem[at[2] + i] = o
+                tx.call(SEND, [d, m])
+                for _ in range(2 * len(p) + 16):
+                    tx.envs, tx.out = {}, None
+                    r = tx.call(PULL, [("@", "out", 0)])
+                    if not isinstance(r, int):
+                        raise AnalysisError("transmit fold: the value returned by %s() does not evaluate" % PULL)
+                    if r == 0:
+                        break
+                    if not isinstance(tx.out, int):
+                        raise AnalysisError("transmit fold: %s() reports an octet without storing one (C06.R6)" % PULL)
+                    pulled += 1
+                    rx.step(tx.out)
+                # a transmitter that is still not idle has sent more than every octet escaped plus flags:
+                # what it produced so far is compared below
+        except _Abort as e:
+            raise AnalysisError("transmit fold: %s() reached on a witness message" % e)
+        want = [(d, d, tuple(p)) for d, p in msgs]
+        L.ob(R, F, PULL, "transmit fold [%s]: %s -- every message handed to %s() and pulled octet by octet until %s() "
+             "is idle reaches the handler of its DLCI exactly once, with its DLCI and payload" % (tag, title, SEND, PULL),
+             "; ".join(show(*w) for w in want),
+             ("; ".join(show(*g) for g in rx.delivered) or "no handler call") + " (%d octets pulled%s)"
+             % (pulled, "".join("; " + n for n in tx.narrowed[:3]) if rx.delivered != want else ""),
+             rx.delivered == want, tu.line(tu.func(PULL)))
+    L.floor(R, "witness message lists folded through %s / %s (%s build)" % (SEND, PULL, tag), len(witnesses), 4)
+
+
+def r4_sendmsg(L, tu, mtu, tag):
+    """C06.R3 / C06.R4 for sercomm_sendmsg(), evaluated (TxFold) instead of read off its spelling: a witness
+    message of three payload octets is handed to sercomm_sendmsg(d, msg) for two DLCIs.  Observed when
+    msgb_enqueue() is reached and again at the end: the octets between the new and the old start of the message
+    (what msgb_push() prepended), the payload, the queue the message went to.  Required: two octets prepended -
+    the DLCI argument and one constant, the first octets after the opening flag -; the message sits once on the
+    queue indexed by the DLCI, and was complete when it got there (the pull may run at any moment after that:
+    `all interleavings of sendmsg and pull`)."""
+    R = "C06.R4"
+    L.fn(F, SEND)
+    probe = fold_start(RxFold, tu, mtu, (REG,))
+    free = [d for d in range(256) if probe.call(REG, [d, ("@", "handler", d)]) == 0]
+    if len(free) < 2:
+        raise AnalysisError("%s() accepts fewer than 2 DLCIs" % REG)
+    payload = [0xA1, 0xA2, 0xA3]
+    seen = []
+    for d in (free[0], free[-1]):
+        tx = fold_start(TxFold, tu, mtu, (SEND, RX_ALLOC_FN, "msgb_put"))
+        try:
+            m = tx.call(RX_ALLOC_FN, [len(payload)])
+            at = tx.call("msgb_put", [m, len(payload)]) if m == ("@", "obj", 0) else None
+            if not (_sym(at) and at[1] == "buf"):
+                raise AnalysisError("%s(): the evaluation does not arrive at a witness message" % SEND)
+            for k, o in enumerate(payload):
+                tx.mem[at[2] + k] = o
+            tx.cut = at[2]
+            tx.call(SEND, [d, m])
+        except _Abort as e:
+            raise AnalysisError("%s(): %s() reached on a witness message" % (SEND, e))
+        if tx.obj is None:
+            raise AnalysisError("%s(): the message is released while it is queued -- unclassifiable" % SEND)
+        final = tx.message(at[2])
+        queued = sorted((q, len(v)) for q, v in tx.queues.items() if v)
+        seen.append((d, final, tx.enq_snap, queued))
+    hdr = [(d, f[0] if f else None) for d, f, _, _ in seen]
+    consts = {h[1] for _, h in hdr if h is not None and len(h) == 2}
+    L.ob("C06.R3", F, SEND, "two octets are prepended to the payload: [address = DLCI argument, control "
+         "constant], i.e. they are the first octets after the opening flag",
+         "; ".join("dlci %d: [%s, c] + payload" % (d, hx(d)) for d, _ in hdr),
+         "; ".join("dlci %d: %s" % (d, "header does not evaluate" if h is None else "[%s] + %s" % (
+             ", ".join("??" if o is None else hx(o) for o in h), "payload" if f[1] == tuple(payload) else "altered payload"))
+             for (d, h), (_, f, _, _) in zip(hdr, seen)),
+         all(h is not None and len(h) == 2 and h[0] == d and isinstance(h[1], int) for d, h in hdr) and len(consts) == 1
+         and all(f is not None and f[1] == tuple(payload) for _, f, _, _ in seen), tu.line(tu.func(SEND)))
+    L.ob(R, F, SEND, "the message is enqueued once, after the header was written, on the queue indexed "
+         "by the DLCI argument", "; ".join("dlci %d: complete message once on %s[%d]" % (d, QUEUES, d) for d, _, _, _ in seen),
+         "; ".join("dlci %d: %s, %s" % (d, "complete" if snap == [f] else "%d enqueue(s), message %s at that time" % (
+             len(snap), "differs" if snap else "absent"), ", ".join("%d on %s" % (n, q) for q, n in queued) or "on no queue")
+             for d, f, snap, queued in seen),
+         all(snap == [f] and queued == [("%s[%d]" % (QUEUES, d), 1)] for d, f, snap, queued in seen), tu.line(tu.func(SEND)))
 
 
 # ------------------------------------------------------- C06.R5 (thorough)
@@ -5571,9 +5869,10 @@ def run(L, tier):
         L.stage(r4_index_bounds, L, tu, tag)
         L.stage(r4_dispatch, L, tu, tag)
         L.stage(r4_queue_scan, L, tu, tx)
-        L.stage(r4_sendmsg, L, tu)
+        L.stage(r4_sendmsg, L, tu, mtu, tag)
         L.stage(r6_pull_contract, L, tu, tag, tx)
         rxvals[kindname] = L.stage(rx_return_values, L, tu, tag, rx)
+        L.stage(r13_tx_fold, L, tu, mtu, tag, size)
         K = L.stage(r2_tx, L, tu, tag, tx)
         if K is None:
             continue        # the transmitter's shape is already reported as violated
